@@ -1,7 +1,7 @@
 (* C04 — a confirmed request ends in exactly one outcome, in bounded time, no residue.
    Property theorems only; the model is Bac.Ssm (ClientSSM / ServerSSM transcribed from appservice.py with the
    fix: commits of known_findings/C04.json applied), proofs in Bac.SsmC04a / Bac.SsmC04 / Bac.SsmC05. *)
-From Bac Require Import Base PyRt Ssm SsmFacts SsmC04a SsmC04 SsmC04t SsmC04s SsmC05 SsmWorld.
+From Bac Require Import Base PyRt Ssm SsmFacts SsmC04a SsmC04 SsmC04t SsmC04s SsmC04w SsmC04h SsmC05 SsmWorld.
 Open Scope Z_scope.
 
 (* over any sequence of inbound frames and time-outs, in any order and at any instants, a client transaction hands
@@ -54,6 +54,42 @@ Theorem C04_budget_nonneg : forall s, cnt_ok s -> 0 <= budget s.
 Proof. exact budget_nonneg. Qed.
 Print Assumptions C04_budget_nonneg.
 
+(* bounded time, composed.  A scheduled history (`valid_run`): instants do not go back, a frame is handled no later than the
+   armed deadline, a time-out exactly at it, no handler raises, nothing is handled after removal.  With K = n_rx evs frames
+   received there are at most budget + K*retries + 1 time-outs, and every event — in particular the one that delivers the
+   outcome — happens within (budget + K*(retries+1) + 1) * max(apduTimeout, segmentTimeout) of the start.  `_partial`:
+   K is a parameter of the history (the network decides how many frames arrive), not bounded by the theorem. *)
+Theorem C04_outcome_within_partial : forall evs s ctr t0, c_ready s -> cnt_ok s ->
+  (forall w c, s_timer s = Some (w, c) -> w <= t0 + Tmax s) ->
+  valid_run evs s ctr t0 ->
+  n_to evs <= budget s + n_rx evs * s_retries s + 1 /\
+  last_time evs t0 <= t0 + (budget s + n_rx evs * (s_retries s + 1) + 1) * Tmax s.
+Proof.
+  intros evs s ctr t0 Hr Hc Hd Hv. split.
+  - exact (proj1 (run_bound evs s ctr t0 Hr Hc Hd Hv)).
+  - exact (outcome_within evs s ctr t0 Hr Hc Hd Hv).
+Qed.
+Print Assumptions C04_outcome_within_partial.
+
+(* for a request just submitted the budget is retries^2 + 3*retries + 1 (19 time-outs for the default 3 retries) *)
+Theorem C04_fresh_budget : forall s, s_retry s = 0 -> s_segretry s = 0 -> budget s = s_retries s * s_retries s + 3 * s_retries s + 1.
+Proof. exact fresh_budget. Qed.
+Print Assumptions C04_fresh_budget.
+
+(* the serving side over whole histories: from the first frame (a request as the header decoder can produce it) through any
+   sequence of frames, application answers and time-outs — raising handlers included — a server transaction that is still
+   in the table is armed and in a state that has a time-out handler (s_inv); one that left it is COMPLETED/ABORTED without
+   a timer (s_done) *)
+Theorem C04_server_history_no_residue : forall a s0 ctr now evs, wf_request a -> s_state s0 = IDLE -> 0 < s_app_to s0 -> 0 < s_seg_to s0 ->
+  let r := s_life a s0 ctr now evs in (snd r = true -> s_inv (fst r)) /\ (snd r = false -> s_done (fst r)).
+Proof. exact s_life_inv. Qed.
+Print Assumptions C04_server_history_no_residue.
+
+Theorem C04_server_history_invariant : forall evs s ctr, s_inv s ->
+  let r := s_after evs s ctr in (snd r = true -> s_inv (fst r)) /\ (snd r = false -> s_done (fst r)).
+Proof. exact s_history_inv. Qed.
+Print Assumptions C04_server_history_invariant.
+
 (* the serving side keeps no residue either: for every frame in every state, for the application's answer and for every
    time-out, a ServerSSM is in the table iff it is not COMPLETED/ABORTED, a removed one holds no timer, and one that stays
    has its timer armed whenever the handler did not raise (for a frame: provided it was armed before, or the transaction is new) *)
@@ -91,6 +127,18 @@ Print Assumptions C04_reserved_maxresp_no_residue.
 Example C04_ready_example : c_ready fresh_client.
 Proof. vm_compute. repeat split. Qed.
 Example C04_server_pre_example : pre_s (mkH fresh_server [] 0 0 true) /\ pre_s (mkH busy_server [] 0 0 true).
+Proof. vm_compute. repeat split; discriminate. Qed.
+Example C04_valid_run_example :
+  let s1 := h_s (fst (c_indication (mk_creq false false false (-1) (-1) (-1) (-1) 1 12 [1; 2; 3]) (mkH fresh_client [] 0 0 true))) in
+  valid_run [(3000, Timeout); (4000, Rx (mk_sack 1 12))] s1 1 0 /\ cnt_ok s1 /\ c_ready s1.
+Proof.
+  cbv zeta. split; [|split].
+  - cbn [valid_run]. split; [lia|]. split; [exists 3000, 0; vm_compute; repeat split; congruence|]. split; [vm_compute; reflexivity|].
+    vm_compute. split; [discriminate|]. split; [exists 6000, 1; repeat split; discriminate|]. repeat split.
+  - vm_compute. repeat split; discriminate.
+  - vm_compute. repeat split.
+Qed.
+Example C04_wf_request_example : wf_request (mk_creq false false true (-1) (-1) 0 9 5 12 [1]) /\ s_state fresh_server = IDLE.
 Proof. vm_compute. repeat split; discriminate. Qed.
 Example C04_budget_example : cnt_ok fresh_client /\ budget fresh_client = 19.
 Proof. vm_compute. repeat split; discriminate. Qed.
